@@ -330,88 +330,65 @@ class Sub0(K0):
     pass
 
 
-def _predict_ctor(C, M, tag):
-    if tag in C:
-        return C[tag]
-    for p in M:
-        if p is not None and tag.startswith(p):
-            return M[p]
-    if None in M:
-        return M[None]
-    if None in C:
-        return C[None]
-    return None
-
-
-def _predict_repr(R, MR, obj):
-    t = type(obj)
-    if t in R:
-        return R[t]
-    for b in t.__mro__:
-        if b in MR:
-            return MR[b]
-    if None in MR:
-        return MR[None]
-    if None in R:
-        return R[None]
-    return None
-
-
-def _predict_res(I, value):
-    for tag, rx in I.get(value[0] if value else '', []) + I.get(None, []):
-        if rx.match(value):
-            return tag
-    return 'tag:yaml.org,2002:str'
-
-
 class _NullOut:
     def write(self, data):
         pass
 
 
-def _dispatch_mismatch(kind, c, is_loader, key):
-    """run the dispatch of class c on a few probes and compare with what its effective tables say;
-    -> None or a description.  All data is concrete: runs outside the tracer."""
-    with untraced():
+def _twin(c, root):
+    """a class that has never dispatched anything, with copies of c's effective tables"""
+    d = {}
+    for k in ALL_KINDS:
+        if hasattr(c, k):
+            d[k] = copy_table(k, getattr(c, k))
+    return type('Twin', (root,), d)
+
+
+def _run_probe(kind, cls, is_loader, probe):
+    inst = (cls('') if is_loader else cls(_NullOut()))
+    try:
         if kind in ('yaml_constructors', 'yaml_multi_constructors'):
-            C, M = c.yaml_constructors, c.yaml_multi_constructors
-            for tag in (key, key + '~', '!pre', '!pre~', '!new'):
-                want = _predict_ctor(C, M, tag)
-                inst = c('')
-                try:
-                    got = inst.construct_object(ScalarNode(tag, '7'))
-                except Exception:
-                    got = 'exc'
-                finally:
-                    inst.dispose()
-                for f, r in ((f1, 1), (f2, 2)):
-                    if (want is f) != (got == r and type(got) is int):
-                        return 'constructing %r: the tables say %s, the call gave %r' % (tag, getattr(want, '__name__', want), got)
+            r = inst.construct_object(ScalarNode(probe, '7'))
         elif kind in ('yaml_representers', 'yaml_multi_representers'):
-            R, MR = c.yaml_representers, c.yaml_multi_representers
-            for obj in (Kpre(), K0(), SubPre(), Sub0()):
-                want = _predict_repr(R, MR, obj)
-                inst = c(_NullOut())
-                try:
-                    got = inst.represent_data(obj)
-                except Exception:
-                    got = 'exc'
-                finally:
-                    inst.dispose()
-                for f, r in ((f1, 1), (f2, 2)):
-                    if (want is f) != (got == r and type(got) is int):
-                        return 'representing a %s: the tables say %s, the call gave %r' % (type(obj).__name__, getattr(want, '__name__', want), got)
+            r = inst.represent_data(probe)
+            r = r if type(r) is int else type(r).__name__
         else:
-            I = c.yaml_implicit_resolvers
-            inst = c('') if is_loader else c(_NullOut())
-            try:
-                for value in ('pz', 'qz', 'z', '', 'x', 'px'):
-                    want = _predict_res(I, value)
-                    got = inst.resolve(ScalarNode, value, (True, False))
-                    if got != want:
-                        return 'resolving %r: the table says %s, the call gave %s' % (value, want, got)
-            finally:
-                inst.dispose()
+            r = inst.resolve(ScalarNode, probe, (True, False))
+        return ('value', r)
+    except Exception as e:
+        return ('exc', type(e).__name__)
+    finally:
+        inst.dispose()
+
+
+def _dispatch_mismatch(kind, c, root, is_loader, key):
+    """Relational check, no oracle of the dispatch order: class c (with whatever it has
+    dispatched and registered so far) must treat every probe exactly like a fresh class that
+    has the same effective tables; and an exact table entry that names one of the harness's
+    own functions must be the function that runs.  All data is concrete: runs outside the tracer."""
+    with untraced():
+        tw = _twin(c, root)
+        if kind in ('yaml_constructors', 'yaml_multi_constructors'):
+            probes = [key, key + '~', '!pre', '!pre~', '!new']
+        elif kind in ('yaml_representers', 'yaml_multi_representers'):
+            probes = [Kpre(), K0(), SubPre(), Sub0()]
+        else:
+            probes = ['pz', 'qz', 'z', '', 'x', 'px']
+        for pr in probes:
+            got, ref = _run_probe(kind, c, is_loader, pr), _run_probe(kind, tw, is_loader, pr)
+            name = pr if isinstance(pr, str) else type(pr).__name__
+            if got != ref:
+                return 'probe %r: %r, but a fresh class with the same tables gives %r' % (name, got, ref)
+            # an exact entry of the harness's own functions must be the one that runs
+            if kind == 'yaml_constructors':
+                want = c.yaml_constructors.get(pr)
+            elif kind == 'yaml_representers':
+                want = c.yaml_representers.get(type(pr))
+            else:
+                continue
+            for f, r in ((f1, 1), (f2, 2)):
+                if (want is f) and got != ('value', r):
+                    return 'probe %r: the table names %s for it, the call gave %r' % (name, f.__name__, got)
     return None
 
 
@@ -437,7 +414,7 @@ def behaviour(root_i: int, side: int, kind_i: int, ownA: bool, ownB: bool, ownC:
             pre_register(kind, classes[3], is_loader)
         if used:
             for c in classes:
-                m = _dispatch_mismatch(kind, c, is_loader, tag)
+                m = _dispatch_mismatch(kind, c, root, is_loader, tag)
                 if m:
                     return 'BEHAVIOUR of %s before the operation: %s' % (c.__name__, m)
         T = pick(tgt, classes)
@@ -457,7 +434,7 @@ def behaviour(root_i: int, side: int, kind_i: int, ownA: bool, ownB: bool, ownC:
                 T.add_implicit_resolver(tag if rnd == 0 else '!again', RXB, None if nfirst == 0 else [c1] if nfirst == 1 else [c1, 'q'])
             reach()
             for c in classes:
-                m = _dispatch_mismatch(kind, c, is_loader, tag)
+                m = _dispatch_mismatch(kind, c, root, is_loader, tag)
                 if m:
                     return 'BEHAVIOUR of %s after the %s registration on %s: %s' % (c.__name__, 'first' if rnd == 0 else 'second', T.__name__, m)
         ch = _changed(snap)
